@@ -67,6 +67,9 @@ func NewHTTPReverseProxy(option HTTPReverseProxyOptions, vhostRouter *Routers) *
 			r.SetXForwarded()
 			req := r.Out
 			req.URL.Scheme = "http"
+			// frps does not interpret query parameters: forward the query exactly as received
+			// (ReverseProxy drops parameters it cannot parse, e.g. "a=1;b=2", and re-encodes the rest).
+			req.URL.RawQuery = r.In.URL.RawQuery
 			reqRouteInfo := req.Context().Value(RouteInfoKey).(*RequestRouteInfo)
 			originalHost, _ := httppkg.CanonicalHost(reqRouteInfo.Host)
 
